@@ -285,10 +285,27 @@ func ruleRuneKeys(c *Ctx) {
 // (return otherCtor(args...)) is followed into the sibling in that calling context.
 func ctorFields(n *Normer, fn *ssa.Function, depth int) map[string]string {
 	got := map[string]string{}
+	// a struct stored as a whole (embedded part, or the complete object built by a helper): its fields
+	expand := func(v ssa.Value) bool {
+		st, ok := v.Type().Underlying().(*types.Struct)
+		if !ok {
+			return false
+		}
+		for j := 0; j < st.NumFields(); j++ {
+			if p, ok := n.fieldOf(v, j, 0); ok {
+				got[fname(st.Field(j))] = p.String()
+			}
+		}
+		return true
+	}
 	eachInstr(fn, func(b *ssa.BasicBlock, ins ssa.Instruction) {
 		if st, ok := ins.(*ssa.Store); ok {
 			if _, f := storeBase(st.Addr); f != "" {
-				got[f] = n.Norm(st.Val).String()
+				if !expand(st.Val) {
+					got[f] = n.Norm(st.Val).String()
+				}
+			} else if _, isAlloc := st.Addr.(*ssa.Alloc); isAlloc {
+				expand(st.Val)
 			}
 		}
 	})
